@@ -25,7 +25,7 @@ import strax.mailbox as mbm  # noqa: E402
 from lib import sched as S  # noqa: E402
 
 ID = "C05"
-LEAN_MODULES = ["StraxModel.Props.C05", "StraxModel.Props.C13"]
+LEAN_MODULES = ["StraxModel.Props.C05", "StraxModel.Props.C13", "StraxModel.Props.C05Gates", "StraxModel.Props.C13Gates"]
 TRUSTED = [
     "cooperative scheduler checks/lib/sched.py (replaces `threading` inside strax.mailbox: real threads, one runs at a time, "
     "yield points at lock acquire / Condition.wait / Future.result / harness `fetch` and `work` points)",
@@ -33,6 +33,11 @@ TRUSTED = [
     "heapq (the model keeps a list and compares sorted numbers), concurrent.futures.Future",
     "the stale-waiter rule of Mailbox._can_fetch is read off its source text (gate_rule()): L = compares with the lowest number "
     "(before fb45a02), H = _has_msg (today); the Lean model carries both rules",
+    "translator (checks/lib/mailbox_translate.py, step regen): AST of Mailbox._has_msg, _lowest_msg_number, _can_fetch, can_write and the "
+    "message-number check of send, next_ready and the clean-up loop test of _read -> Generated/MailboxGates.lean over the abstract state "
+    "MailboxAbs.St (if / return / assert / for-any / any(comprehension) / zip / len / min / and / or / not / is None / comparisons); "
+    "trusted in it: heap[0][0] of a heapq is the smallest number (MailboxAbs.lowest?), float('inf') = no capacity (Option Nat), "
+    "the statements around the translated predicates (which predicate is waited on where) stay tied by the step-exact correspondence only",
 ]
 ASSUMPTIONS = [
     "one sender thread per mailbox (as in strax); message payloads are small integers; futures are completed (never failed) by harness "
@@ -44,6 +49,14 @@ ASSUMPTIONS = [
 
 ERRS = {"MailboxKilled", "MailboxFullTimeout", "MailboxReadTimeout", "InvalidMessageNumber", "MailBoxAlreadyClosed",
         "ValueError", "RuntimeError", "TypeError", "KeyError", "AssertionError"}
+
+
+# ----------------------------------------------------------------------------- step 0: translator
+def regen(ctx):
+    """Regenerate Generated/MailboxGates.lean from the current source of strax/mailbox.py (see checks/lib/mailbox_translate.py);
+    Props/C05Gates.lean and Props/C13Gates.lean prove every generated predicate equal to the one Model/Mailbox.lean uses."""
+    from lib import mailbox_translate
+    mailbox_translate.regen(ctx)
 
 
 # ----------------------------------------------------------------------------- case helpers
